@@ -35,6 +35,8 @@ def run(cx):
     init = cx.func(REL, "XlsObject.__init__", "R18a")
     gao = cx.func(REL, "XlsObject.get_attr_origin", "R18c")
     it = cx.func(REL, "XlsTableReader.iter_table", "R18d")
+    from sa.inline import inlined
+    it, _inl = inlined(repo.mod(REL), it)      # private helpers of the reader (e.g. an extracted ladder-fill) are analysed in place
     cfr = cx.func(REL, "_ObjScrCellsMap.cells_from_row", "R18e")
     btr = cx.func(REL, "_ObjScrCellsMap.bind_titles_row", "R18e")
 
@@ -142,22 +144,36 @@ def run(cx):
     ok = len(cc) == 1 and norm(cc[0]) == "sorted(origins.values())"
     cx.ob("R18c", gao, ok, "the range description is derived from the recorded coordinates only" if ok else "range description is not built from origins.values()", stmt="range description")
     # ------------------------------------------------------------------ R18d
-    fills = [s for s in walk_local(it) if isinstance(s, ast.Assign) and norm(s.targets[0]).startswith("current_row[")]
+    # the ladder fill, with the names discovered from the code: F[i] = P[i] where F is a fresh copy `list(<row>)` of the sheet row
+    main = next(l for l in it.body if isinstance(l, ast.For))
+    rowv = norm(main.target)
+    fills = []
+    for s_ in walk_local(it):
+        if isinstance(s_, ast.Assign) and len(s_.targets) == 1:
+            t_ = s_.targets[0]
+            while isinstance(t_, ast.Attribute):       # `F[i].value = ..` writes into the cell object of the sheet
+                t_ = t_.value
+            if isinstance(t_, ast.Subscript) and isinstance(t_.value, ast.Name) and any(v is not None and norm(v) == f"list({rowv})" for _, v in assignments(it, t_.value.id)):
+                if t_ is not s_.targets[0]:
+                    cx.ob("R18d", s_, False, f"ladder fill writes `{norm(s_.targets[0])}`: the cell object of the sheet is modified / a value is copied, so the reported origin no longer holds the value")
+                else:
+                    fills.append(s_)
     cx.need(len(fills) == 1, "R18d", it, "ladder fill assignment")
     f0 = fills[0]
-    tsub = f0.targets[0]
-    while not isinstance(tsub, ast.Subscript):
-        tsub = tsub.value
-    i = norm(tsub.slice)
-    ok = isinstance(f0.targets[0], ast.Subscript) and norm(f0.value) == f"prev_row[{i}]"
+    X = f0.targets[0].value.id
+    i = norm(f0.targets[0].slice)
+    pv = f0.value.value.id if isinstance(f0.value, ast.Subscript) and isinstance(f0.value.value, ast.Name) and norm(f0.value.slice) == i else None
+    # P must be the variable that holds the previous effective row: assigned at the top level of the row loop from the row built for this iteration
+    eff = [s_ for s_ in main.body if isinstance(s_, ast.Assign) and pv is not None and is_name(s_.targets[0], pv) and isinstance(s_.value, ast.Name)]
+    ok = pv is not None and bool(eff)
     cx.ob("R18d", f0, ok, "an empty leading cell is replaced by the *cell object* of the previous effective row (origin follows the value)" if ok else
           f"ladder fill stores {norm(f0.value)}: a value / another cell, so the reported origin no longer holds the value")
     fs = {(norm(e), pol) for e, pol in facts(f0)}
-    ok = (f"self._cell_is_empty(current_row[{i}])", True) in fs
+    ok = (f"self._cell_is_empty({X}[{i}])", True) in fs or (f"cls._cell_is_empty({X}[{i}])", True) in fs
     cx.ob("R18d", f0, ok, "only empty cells are filled" if ok else "non-empty cells may be overwritten", stmt=norm(f0) + " [guard]")
     lp2 = enclosing_loops(f0)[0]
     brk = [b for b in ast.walk(lp2) if isinstance(b, ast.Break)]
-    ok = len(brk) == 1 and norm(lp2.iter) == "range(first_col_pos, len(current_row))" and any(norm(e) == f"self._cell_is_empty(current_row[{i}])" and not pol for e, pol in facts(brk[0]))
+    ok = len(brk) == 1 and norm(lp2.iter) == f"range(first_col_pos, len({X}))" and any(norm(e) in (f"self._cell_is_empty({X}[{i}])", f"cls._cell_is_empty({X}[{i}])") and not pol for e, pol in facts(brk[0]))
     cx.ob("R18d", lp2, ok, "filling stops at the first non-empty cell, starting at the first titled column" if ok else "ladder fill range / stop condition altered")
     # where the ladder starts: the first column that has a title at all (also columns of ranged groups / columns no rule names)
     fc = [(stt, v) for stt, v in assignments(it, "first_col_pos") if v is not None and not (isinstance(v, ast.Constant) and v.value is None)]
@@ -174,16 +190,28 @@ def run(cx):
             why = f"the ladder starts at the first column satisfying `{' and '.join(conds) or 'True'}`, not at the first titled column: blank cells in leading titled columns the condition leaves out " \
                   "(ranged groups, columns no rule names) are not filled from above, so the objects differ from those of the filled-in table and origins point at blank cells"
     cx.ob("R18d", fc[0][0] if fc else it, ok, "the ladder starts at the first titled column" if ok else why, stmt="ladder start column")
-    cr = [v for _, v in assignments(it, "current_row") if v is not None]
-    ok = sorted(norm(v) for v in cr) == ["list(row)", "row", "row"]
-    cx.ob("R18d", it, ok, "the filled row is a fresh list (the sheet's row is not modified)" if ok else f"current_row is bound to {sorted(norm(v) for v in cr)}", stmt="fresh row")
-    pr = [s for s in walk_local(it) if isinstance(s, ast.Assign) and is_name(s.targets[0], "prev_row") and not const(s.value)]
-    main = next(l for l in it.body if isinstance(l, ast.For))
-    ok = any(norm(s.value) == "current_row" and parent(s) is main for s in pr)
-    cx.ob("R18d", pr[-1] if pr else it, ok, "the previous row is updated to the filled row on every data row" if ok else "prev_row is not updated to the filled row for every data row")
+    # the effective row of this iteration: the variable E copied into P at the end of the loop body; E is either the sheet row
+    # itself or the filled copy (directly or through one more name), and nothing else
+    E = eff[0].value.id if eff else None
+
+    def origins(name, depth=0):
+        out = set()
+        for _, v in assignments(it, name):
+            if v is None:
+                continue
+            if isinstance(v, ast.Name) and v.id not in (name,) and depth < 3 and v.id != rowv:
+                out |= origins(v.id, depth + 1)
+            else:
+                out.add(norm(v))
+        return out
+    og = origins(E) if E else set()
+    ok = E is not None and og <= {f"list({rowv})", rowv} and f"list({rowv})" in og
+    cx.ob("R18d", it, ok, "the filled row is a fresh list (the sheet's row is not modified)" if ok else f"the effective row `{E}` is bound to {sorted(og)}", stmt="fresh row")
+    ok = E is not None and any(parent(s_) is main for s_ in eff)
+    cx.ob("R18d", eff[-1] if eff else it, ok, "the previous row is updated to the filled row on every data row" if ok else "prev_row is not updated to the filled row for every data row")
     cons = [c for c in walk_local(it) if isinstance(c, ast.Call) and call_name(c) == "construct"]
-    ok = len(cons) == 1 and norm(cons[0].args[0]) == "*cells_map.cells_from_row(current_row)"
-    cx.ob("R18d", cons[0] if cons else it, ok, "objects are built from the filled row" if ok else "objects are not built from current_row")
+    ok = len(cons) == 1 and E is not None and norm(cons[0].args[0]) == f"*cells_map.cells_from_row({E})"
+    cx.ob("R18d", cons[0] if cons else it, ok, "objects are built from the filled row" if ok else f"objects are not built from the effective row `{E}`")
     # ------------------------------------------------------------------ R18e
     r = [x for x in walk_local(cfr) if isinstance(x, ast.Return) and isinstance(x.value, ast.Tuple)]
     ok = len(r) == 1 and [norm(e) for e in r[0].value.elts] == ["self.cells_types", "cells", "self.defaults_factories"]
